@@ -68,6 +68,16 @@ def literals(tier, rng):
             out.append(digs[:p] + "." + digs[p:])
             out.append(digs[:1] + "." + digs[1:] + "e%d" % rng.randint(-320, 300))
             out.append("0." + "0" * rng.randint(0, 30) + digs)
+    # the same value with the decimal point far away and a cancelling written exponent: leading / trailing zero runs
+    # around every saturation point of the exponent and digit accounting (15..19 digits, 308, 1000, 10000)
+    for z in (1, 5, 14, 15, 16, 19, 20, 22, 23, 40, 300, 330, 998, 999, 1000, 1001, 1005, 2000, 9999, 10000, 10010):
+        for digs in ("1", "25", "123", "999999999999999", "1234567890123456", "7"):
+            for k in (-23, -22, -5, 0, 1, 5, 22, 23, 37):
+                if tier == "quick" and (z > 2000 or (k not in (-22, 0, 1, 22) and z not in (15, 16, 999, 1000, 1001))):
+                    continue
+                out.append("0." + "0" * z + digs + "e%d" % (z + len(digs) + k))
+                out.append(digs + "0" * z + "e-%d" % (z - k) if z - k >= 0 else digs + "0" * z + "e%d" % (k - z))
+                out.append(digs + "0" * z + ".0e-%d" % (z - k) if z - k >= 0 else digs + "0" * z + ".0e%d" % (k - z))
     # uniformly random shapes
     for _ in range(2000 if tier == "quick" else 40000):
         ip = str(rng.randrange(10 ** rng.randint(1, 25)))
